@@ -51,7 +51,7 @@ def main():
     res = {'name': name, 'patch': a.patch}
     try:
         env = {'PYTHONPATH': wt}
-        rc, o = sh([PY, a.demo], cwd=wt, env=env, timeout=600)
+        rc, o = sh([PY, os.path.abspath(a.demo)], cwd=wt, env=env, timeout=600)
         res['demo_pristine_rc'] = rc
         rc, o = sh(['git', '-C', wt, 'apply', os.path.abspath(a.patch)])
         res['apply_rc'] = rc
@@ -62,7 +62,7 @@ def main():
             rc, o = sh([PY, '-m', 'pytest', '-q', '-p', 'no:cacheprovider', '--timeout=900'], cwd=wt, env=env)
             res['tests_rc'] = rc
             res['tests_tail'] = o.strip().splitlines()[-1] if o.strip() else ''
-        rc, o = sh([PY, a.demo], cwd=wt, env=env, timeout=600)
+        rc, o = sh([PY, os.path.abspath(a.demo)], cwd=wt, env=env, timeout=600)
         res['demo_patched_rc'] = rc
         res['demo_patched_tail'] = o.strip()[-300:]
         res['checks'] = {}
